@@ -9,6 +9,13 @@ Theorem C07_resume_equiv : forall (S D F : Type) (step : S -> S) (proj : S -> D)
   proj (iter_steps step n s') = proj (iter_steps step (k + n) s0).
 Proof. exact resume_equiv. Qed.
 Print Assumptions C07_resume_equiv.
+(* restarts of restarts: a run interrupted and rebuilt from its own latest file any number of times, after any numbers of steps, ends where
+   the uninterrupted run of the same total length ends *)
+Theorem C07_chained_restarts : forall (S D : Type) (step : S -> S) (proj : S -> D) (reload : S -> S),
+  (forall s s', proj s = proj s' -> proj (step s) = proj (step s')) -> (forall s, proj (reload s) = proj s) ->
+  forall segs s0 s0', proj s0' = proj s0 -> proj (chain S step reload segs s0') = proj (iter_steps step (List.list_sum segs) s0).
+Proof. intros S D step proj reload H. exact (chained_restarts S D step proj H reload). Qed.
+Print Assumptions C07_chained_restarts.
 (* the moves, operations, integrators and criteria inside the move table are restored exactly (generic round trip, any nesting) *)
 Theorem C07_components_restored : forall (s : schema) (o : obj) p csc, wf s o -> lookup s (cls_of o) = Some csc -> c_registered csc = true -> c_proto csc = p ->
   from_dict s (S (odepth o)) p (to_dict s o) = Some o.
